@@ -118,11 +118,16 @@ def _optional_parts(tier, seed, rep, only, bounds):
             f = getattr(mod, fn)
         except (ImportError, AttributeError):
             continue
+        known = set(rep.violations)
         if modname == "c02":
             for tx, rx in PAIRINGS:
                 bounds["%s:%s->%s" % (modname, tx, rx)] = f(tier, seed, rep, tx_cls=tx, rx_cls=rx, pid=PID)
         else:
             bounds[modname] = f(tier, seed, rep, cls_name="lite", pid=PID)
+        for sig in set(rep.violations) - known:
+            rd = rep.violations[sig].get("replay")
+            if isinstance(rd, dict):
+                rd["module"] = modname  # tells replay() whose harness recorded this history
         extra += "; " + label + " (" + modname + ") on rf24_lite"
     # C20 claims of the lite driver what its statement lists, within the documented reductions
     # ("exception prompts have been reduced", no per-pipe state, no validation of oversize input):
